@@ -201,7 +201,8 @@ func ruleC08(c *Ctx) {
 			}
 			// attributes
 			coll := a0 + ".AttributeStatement.Attributes"
-			through := atoms["(i* + 1) < len("+coll+")"]
+			als := loopShapeOf(atoms, coll)
+			through := als.Gen
 			if atoms["!("+a0+".AttributeStatement == nil)"] {
 				if through {
 					var ups []string
@@ -210,11 +211,11 @@ func ruleC08(c *Ctx) {
 							ups = append(ups, ap(e.I)+" => "+ap(e.Val))
 						}
 					}
-					exhausted := atoms["!(((i* + 1) + 1) < len("+coll+"))"]
+					exhausted := als.Exhausted
 					wantUp := coll + "[*].Name => " + coll + "[*]"
 					c.check(len(ups) == 1 && ups[0] == wantUp && exhausted && loopStartsAtZero(t, coll), "C08-R2", fname, "Values[attribute.Name] = attribute for every attribute", pos, wantUp,
 						fmt.Sprintf("attribute map filled by %v (exhausted=%v), want one update %s per attribute over the whole list", ups, exhausted, wantUp))
-				} else if !atoms["!(0 < len("+coll+"))"] {
+				} else if !als.Zero {
 					c.bad("C08-R2", fname, "Values filled from all attributes", pos, "path with an AttributeStatement does not iterate its Attributes")
 				}
 			}
@@ -338,7 +339,7 @@ func accessors(c *Ctx, rule string) {
 				nLoop++
 				app, ok := v.(*AppendV)
 				good := ok && len(app.Elems) == 1 && (ap(app.Elems[0]) == coll+"[*].Value") && strings.HasPrefix(app.S.Key(), "loopphi(") &&
-					(a["!((i* + 1) < len("+coll+"))"] || a["!(((i* + 1) + 1) < len("+coll+"))"]) && loopStartsAtZero(t, coll)
+					loopShapeOf(a, coll).Exhausted && loopStartsAtZero(t, coll)
 				c.check(good, rule, fname, "present => all values in index order", pos, ap(v), "GetAll does not accumulate every value in order: "+ap(v))
 			default:
 				c.check(isNilConst(v) || isEmptySliceVal(v), rule, fname, "present without values => empty", pos, ap(v), "returns "+ap(v))
@@ -420,6 +421,25 @@ func ruleC20(c *Ctx) {
 	c.Controls["C20-R4 hdrwrite"] = fired > 0
 	if fired == 0 {
 		c.bad("C20-R4", "controls/hdrwrite", "positive control", "-", "matcher did not flag the control that rewrites Response.Issuer")
+	}
+
+	// R5: the validated header is decoded from the parsed root before anything is added to it
+	c.rule("C20-R5", "on the unsigned-Response path the header (ID, Destination, Issuer, ...) is decoded from the parsed root before decryptAssertions adds decrypted plaintext to that tree (shared with C01-R1)")
+	if sso0 := c.kernel(ssoSpec.Entry, inboundInline...); sso0 != nil {
+		n := 0
+		for _, t := range sso0.Terms {
+			if !t.accepting(sso0.Root) || !strings.Contains(labelReturn(c, t), "unsigned-root") {
+				continue
+			}
+			for _, d := range decodes(t) {
+				if d.Obj.Key() == t.Vals[0].Key() {
+					n++
+					headerBeforeMutation(c, "C20-R5", t, shortFn(sso0.Root), labelReturn(c, t), d)
+				}
+			}
+		}
+		c.count("C20-R5", n)
+		c.floor("C20-R5", 2)
 	}
 
 	// R2 + R3
